@@ -590,10 +590,12 @@ func deepConcurrent(res *common.Result) {
 			res.Note("deep-recursion program does not parse: " + err.Error())
 			return
 		}
+		// one Options value for all runs, as a host that configures the interpreter once does
+		opts := &vm.Options{Debug: false}
 		run := func(park func()) string {
 			e := env.NewEnv()
 			e.Define("park", park)
-			v, err := vm.Run(e, &vm.Options{Debug: false}, stmt)
+			v, err := vm.Run(e, opts, stmt)
 			if err != nil {
 				return "error: " + err.Error()
 			}
